@@ -1446,6 +1446,59 @@ func c10FD(c *core.Collector, x *Ctx) {
 		}
 		c.Count("rounds_after_which_both_servers_served_new_clients", 1)
 	}
+	// ---- one long exhaustion: the flood against the JT808 server is HELD for 6 s (thorough 12 s) with further dials arriving all
+	// the time, so accept keeps failing for seconds. Once the hostile client lets go, a new terminal must be served promptly:
+	// an established session that is answered within half a second before and after shows that the machine is not slow, and a
+	// fresh terminal that then waits more than 2.5 s is not being accepted. (seed C10w1: accept back-off that doubles without
+	// bound and is never reset.)
+	{
+		hold := time.Duration(c.N(6, 12)) * time.Second
+		var held []net.Conn
+		t0 := time.Now()
+		failed := 0
+		for time.Since(t0) < hold {
+			cn, err := net.DialTimeout("tcp", srv.Addr, 300*time.Millisecond)
+			if err != nil {
+				failed++
+				time.Sleep(20 * time.Millisecond)
+				continue
+			}
+			held = append(held, cn)
+			if len(held) > 400 {
+				time.Sleep(20 * time.Millisecond)
+			}
+		}
+		x.Journal.Log(true, "long fd round: %d connections held for %v, %d dials failed", len(held), hold, failed)
+		for _, cn := range held {
+			cn.Close()
+		}
+		time.Sleep(300 * time.Millisecond)
+		e0 := time.Now()
+		w1 := estRound()
+		estLat := time.Since(e0)
+		p0 := time.Now()
+		ok, to := c10Probe(srv.Addr, 9590000+x.Batch)
+		lat := time.Since(p0)
+		e1 := time.Now()
+		w2 := estRound()
+		estLat2 := time.Since(e1)
+		c.Eval()
+		switch {
+		case w1 != "" && w1 != "timeout", w2 != "" && w2 != "timeout":
+			c.Violate("canary|established well-behaved session was closed by the server", "after a long flood of held-open connections: "+w1+w2, nil)
+		case to || w1 == "timeout" || w2 == "timeout":
+			c.Inconclusive()
+		case !ok:
+			c.Violate("accept|the JT808 server no longer serves new connections after descriptor exhaustion ended", "after the long flood", nil)
+		case failed > 0 && lat > 2500*time.Millisecond && estLat < 500*time.Millisecond && estLat2 < 500*time.Millisecond:
+			c.Violate("accept|new terminals wait for seconds after descriptor exhaustion ended although established sessions are served at once",
+				fmt.Sprintf("flood held %v (%d connections, %d failed dials); 300 ms after its release a new terminal was answered only after %v, the established session after %v / %v", hold, len(held), failed, lat.Round(time.Millisecond), estLat.Round(time.Millisecond), estLat2.Round(time.Millisecond)), nil)
+		default:
+			if failed > 0 {
+				c.Count("long_exhaustion_rounds_judged", 1)
+			}
+		}
+	}
 	c.Floor("rounds_that_reached_the_descriptor_limit", 2)
 	c.Floor("rounds_after_which_both_servers_served_new_clients", 4)
 }
